@@ -45,6 +45,7 @@ type Result struct {
 	Err         string            `json:"err,omitempty"` // harness error (not a violation)
 	Caps        []string          `json:"caps,omitempty"`
 	Poisoned    bool              `json:"poisoned,omitempty"` // worker process must not be reused
+	Recycle     bool              `json:"recycle,omitempty"`  // worker asks to be replaced by a fresh process (e.g. leaked goroutines)
 }
 
 func (r *Result) AddExtra(k string, v int64) {
@@ -323,6 +324,7 @@ func orchestrate(c *Check, tier string, nproc int) int {
 				current := ""
 				died := false
 				poisoned := false
+				recycle := false
 				for len(pending) > 0 {
 					j := pending[0]
 					pending = pending[1:]
@@ -349,6 +351,9 @@ func orchestrate(c *Check, tier string, nproc int) int {
 								if r.Poisoned {
 									poisoned = true
 								}
+								if r.Recycle {
+									recycle = true
+								}
 							}
 							gotResult = true
 						} else if strings.HasPrefix(line, "START ") {
@@ -360,7 +365,7 @@ func orchestrate(c *Check, tier string, nproc int) int {
 						break
 					}
 					done++
-					if poisoned || (c.WorkerJobs > 0 && done >= c.WorkerJobs) {
+					if poisoned || recycle || (c.WorkerJobs > 0 && done >= c.WorkerJobs) {
 						break
 					}
 					if nj, ok := <-jobCh; ok {
